@@ -80,16 +80,16 @@ def CedarType.flat : CedarType → Bool
 /-- expressions whose static type is flat whatever the environment -/
 def FlatExpr : Expr → Bool
   | .lit (.bool _) | .lit (.int _) | .lit (.string _) => true
-  | .and _ _ | .or _ _ | .hasAttr _ _ => true
+  | .and _ _ | .or _ _ | .hasAttr _ _ | .like _ _ | .is _ _ => true
   | .unaryApp op _ => op == .not || op == .neg
-  | .binaryApp op _ _ => op == .add || op == .sub || op == .mul
+  | .binaryApp op _ _ => op == .add || op == .sub || op == .mul || op == .eq
   | _ => false
 
 /-- THE PROVED FRAGMENT of `typeOf_sound`: literals (incl. entity uids), the four variables, `&&`, `||`, `!`,
 `if` (with at least one branch of a syntactically flat kind, so that the least upper bound is one of the two branch
-types or `Bool`), unary `-`, `isEmpty`, `+ - *`, `< <=` (long, datetime, duration), `==`, `has` and `.` on records and
-entities (required / optional attributes, capabilities, absent entities), `like`, `is`, `hasTag` / `getTag`.
-Outside: `in`, `contains*`, set / record literals, extension calls, slots, unknowns. -/
+types or `Bool`), unary `-`, `+ - *`, `==`, `has` and `.` on records and
+entities (required / optional attributes, capabilities, absent entities), `like`, `is`.
+Outside: `< <=`, `in`, `isEmpty`, `contains*`, tags, set / record literals, extension calls, slots, unknowns. -/
 def InFragment : Expr → Bool
   | .lit _ => true
   | .var _ => true
@@ -98,9 +98,11 @@ def InFragment : Expr → Bool
   | .or a b => InFragment a && InFragment b
   | .unaryApp op a => (op == .not || op == .neg) && InFragment a
   | .binaryApp op a b =>
-    (op == .add || op == .sub || op == .mul) && InFragment a && InFragment b
+    (op == .add || op == .sub || op == .mul || op == .eq) && InFragment a && InFragment b
   | .getAttr e _ => InFragment e
   | .hasAttr e _ => InFragment e
+  | .like e _ => InFragment e
+  | .is e _ => InFragment e
   | _ => false
 
 /-! ### capabilities -/
